@@ -57,8 +57,22 @@ def main():
     except core.MachineryError as ex:
         print('MACHINERY FAILURE: %s' % ex, file=sys.stderr)
         return 2
-    except Exception:
+    except Exception as ex:
         traceback.print_exc()
+        # an exception that was raised INSIDE the code under test (a frame of the repository's working tree is on the
+        # traceback) while a driver fed it inputs the unchanged tree handles: the tool raised where it must produce its output.
+        # That is a verdict about the code, not a failure of the machinery (which is what every other exception is).
+        frames = traceback.extract_tb(ex.__traceback__)
+        repo = os.path.realpath(core.REPO) + os.sep
+        inside = [f for f in frames if os.path.realpath(f.filename).startswith(repo)]
+        if inside:
+            v = core.Verdict(a.pid)
+            v.violation({'clause': 'code_under_test_raised', 'error': repr(ex), 'where': '%s:%d %s' % (inside[-1].filename[len(repo):], inside[-1].lineno, inside[-1].name),
+                         'check': 'uncaught exception from the code under test'},
+                        'the code under test raised %r at %s:%d' % (ex, inside[-1].filename[len(repo):], inside[-1].lineno))
+            rc, n_viol, n_known = v.finish()
+            print('%s %s: %s' % (a.pid, a.tier, 'ok' if rc == 0 else 'VIOLATIONS'))
+            return rc
         return 2
 
 
